@@ -240,6 +240,30 @@ def params(sh):
                lambda val=val: BycycleGroup(burst_method='amp', thresholds={'burst_fraction_threshold': .5, 'min_n_cycles': val}).fit(s2, FS, FR, n_jobs=1)),
               ('min_n_cycles|compute_features_2d(cycles) thresholds %r' % val, exp,
                lambda val=val: compute_features_2d(s2, FS, FR, compute_features_kwargs={'threshold_kwargs': {'min_n_cycles': val}}, n_jobs=1))]
+    # the same limits on a SECOND use of the caller's objects: a Bycycle object that was fitted with valid settings and is re-fitted after
+    # its settings were edited; option dicts (also empty ones) that the caller keeps and passes again
+    def refit(method, first, key, val):
+        bm = Bycycle(burst_method=method, thresholds=dict(first))
+        bm.fit(sig, FS, FR)
+        bm.thresholds = dict(first, **{key: val})
+        bm.fit(sig, FS, FR)
+        return bm.df_features
+
+    def recall(method, first, key, val, bk):
+        compute_features(sig, FS, FR, burst_method=method, burst_kwargs=bk, threshold_kwargs=dict(first))
+        return compute_features(sig, FS, FR, burst_method=method, burst_kwargs=bk, threshold_kwargs=dict(first, **{key: val}))
+    for method, first, key, bad, good in (('amp', {'burst_fraction_threshold': .5, 'min_n_cycles': 3}, 'min_n_cycles', -2, 2),
+                                          ('amp', {'burst_fraction_threshold': .5}, 'min_n_cycles', -1, 4),
+                                          ('amp', {'burst_fraction_threshold': .5, 'min_n_cycles': 3}, 'burst_fraction_threshold', 1.5, 1),
+                                          ('cycles', {'min_n_cycles': 3}, 'min_n_cycles', -2, 2),
+                                          ('cycles', {'monotonicity_threshold': .6}, 'monotonicity_threshold', 1.5, .9)):
+        P += [('second-use|Bycycle refit(%s) %s=%r' % (method, key, bad), 'reject', lambda a=(method, first, key, bad): refit(*a)),
+              ('second-use-valid|Bycycle refit(%s) %s=%r' % (method, key, good), 'accept', lambda a=(method, first, key, good): refit(*a))]
+        for bk in ({}, None):
+            P += [('second-use|compute_features(%s) kept burst_kwargs %r, %s=%r' % (method, bk, key, bad), 'reject',
+                   lambda a=(method, first, key, bad), bk=bk: recall(*a, dict(bk) if bk is not None else None)),
+                  ('second-use-valid|compute_features(%s) kept burst_kwargs %r, %s=%r' % (method, bk, key, good), 'accept',
+                   lambda a=(method, first, key, good), bk=bk: recall(*a, dict(bk) if bk is not None else None))]
     # amplitude thresholds of the dual-threshold detector
     for val, exp in (((2, 1), 'reject'), ((3., .5), 'reject'), ((1, 2), 'accept'), ((.5, 3), 'accept'), ((1, 1), 'either')):
         P += [('amp_threshes|compute_burst_fraction %r' % (val,), exp,
@@ -318,6 +342,14 @@ def params(sh):
                     return compute_features_2d(ep, FS, FR, compute_features_kwargs=kws, axis=None, n_jobs=1)
                 P.append(('thr-per-epoch|%s entry %d %s=%r' % (where, i, key, val), 'reject', fn))
                 sh.note('per_epoch_probe:' + where) if sh.shard == 0 else None
+            for val in ('foo', 'Cycles', None):
+                def fn2(i=i, val=val):
+                    kws = [{} for _ in range(len(ep))]
+                    kws[i] = {'burst_method': val}
+                    return compute_features_2d(ep, FS, FR, compute_features_kwargs=kws, axis=None, n_jobs=1)
+                P.append(('burst_method-per-epoch|%s entry %d %r' % (where, i, val), 'reject', fn2))
+    P.append(('burst_method-per-epoch-valid|all entries cycles', 'accept',
+              lambda: compute_features_2d(ep, FS, FR, compute_features_kwargs=[{'burst_method': 'cycles'} for _ in range(len(ep))], axis=None, n_jobs=1)))
     P.append(('thr-per-epoch-valid|all entries valid', 'accept',
               lambda: compute_features_2d(ep, FS, FR, compute_features_kwargs=[{'threshold_kwargs': {'monotonicity_threshold': .5}} for _ in range(len(ep))],
                                           axis=None, n_jobs=1)))
